@@ -83,6 +83,30 @@ def extra(ctx, case, spec, src, res, stub, mod, added, removed, tdn):
         # listed finding: a name used (module-qualified, without an import) in the body of a generated TypedDict class; libcst
         # adds the import itself at module level and the confinement pass, which only knows the stub's import block, leaves it there
         ctx.fail(f"{pid}/import-for-generated-typeddict-body-not-confined", case, f"{tdbody}\n{res[:700]}")
+    # confinement MOVES imports, it never drops one: whatever the same stub makes libcst import when confinement is off is
+    # imported somewhere in the confined result too (under TYPE_CHECKING or not is judged above)
+    if not removed and any(a[1] not in ("typing", "__future__") for a in stub_al):
+        from monkeytype.cli import apply_stub_using_libcst
+        try:
+            plain = apply_stub_using_libcst(stub, src, case[3], False)
+        except Exception:
+            plain = None
+        if plain is not None:
+            p_in, p_out = in_type_checking(ast.parse(plain))
+            plain_new = (p_in + p_out) - (src_in + src_out)
+            have = inside + outside
+            dropped = sorted(a for a in plain_new if a[1] not in ("typing", "__future__") and not (a[0] == "import" and a[2] == "typing") and have[a] == 0)
+            ctx.label("confined-vs-unconfined-imports")
+            # listed finding D38 (same alias-blind removal as D15, here hitting an import libcst itself added): `import m`, added
+            # to spell a colliding name as `m.C`, is taken out because the stub has `from m import C`, which goes under
+            # TYPE_CHECKING instead - the annotation `m.C` then names a module nothing imports
+            stub_from_mods = {a[1] for a in stub_al if a[0] == "from"}
+            d38 = [a for a in dropped if a[0] == "import" and a[3] is None and a[2] in stub_from_mods and any(x[0] == "from" and x[1] == a[2] for x in inside)]
+            if d38:
+                ctx.fail(f"{pid}/module-import-for-qualified-annotation-dropped", case, f"{d38}\n{res[:700]}")
+                dropped = [a for a in dropped if a not in d38]
+            if dropped:
+                return ctx.fail(f"{pid}/new-import-dropped", case, f"applying the stub without confinement imports {dropped}; with confinement the result imports them nowhere\n{res[:1000]}")
     nt = bool(A.import_aliases(ast.parse(src))) and any(a[1] not in ("typing", "__future__") for a in added)
     ctx.label("c16-nontrivial" if nt else "c16-trivial")
     # executes and behaves as before
